@@ -1345,9 +1345,7 @@ func extractDoc(d document.Document) refmodel.Doc {
 		for _, e := range l {
 			em, _ := e.(map[string]interface{})
 			id, _ := em["id"].(string)
-			jwk, _ := em["publicKeyJwk"].(map[string]interface{})
-			x, _ := jwk["x"].(string)
-			out.Keys = append(out.Keys, refmodel.Entry{ID: id, Mark: x})
+			out.Keys = append(out.Keys, refmodel.Entry{ID: id, Mark: workload.KeyMark(em)})
 		}
 	}
 
